@@ -79,6 +79,9 @@ def scool_body(env, p):
             same = (a.id.node is b.id.node) if env.symbolic else (a == b)
             env.check(bool(same), f"bins/{col} of cell {nm} is not the shared root column (stored once)")
         if per_cell:
+            if "w" not in list(bt.columns):
+                env.fail(f"per-cell bin column 'w' of {nm} is missing from the cell's bin table (columns {list(bt.columns)})")
+                return None
             env.check(and_(*[a == b for a, b in zip(vals(bt["w"]), extra[nm])]), f"per-cell bin column of {nm} not kept for that cell")
     f.close()
     return obs
